@@ -407,6 +407,15 @@ def mk_call(name: str, args: Iterable[Term], kwargs: Iterable[Tuple[str, Term]] 
         if key(n) < key(a):
             a = n
         return ("call", "abs", (a,), ())
+    if name in ("itertools.islice", "islice") and not kwargs and 2 <= len(args) <= 3:
+        # islice(xs, n) == xs[:n] ; islice(xs, a, b) == xs[a:b]   (as a description of which elements are visited)
+        if len(args) == 2:
+            return mk_slice(args[0], NONE, args[1], NONE)
+        return mk_slice(args[0], args[1], args[2], NONE)
+    if name in ("sorted", "set", "frozenset", "list", "tuple", "min", "max", "sum", "any", "all", "len") and len(args) == 1 \
+            and args[0][0] == "call" and args[0][1] in ("list", "tuple") and len(args[0][2]) == 1 and not args[0][3]:
+        # consumer(list(xs)) == consumer(xs): the intermediate copy is not observable
+        return mk_call(name, args[0][2], kwargs)
     if name == "list" and len(args) == 1 and not kwargs and args[0][0] == "comp" and args[0][1] == "gen":
         return ("comp", "list") + args[0][2:]
     if name == "int" and len(args) == 1 and is_num_const(args[0]) and not kwargs:
@@ -543,6 +552,30 @@ def add_fact(facts: Dict[Term, bool], cond: Term, truth: bool):
     # consequences between strict / non-strict forms of one polynomial
     if pc[0] == "lt" and truth:
         facts.setdefault(("lt", p_neg(pc[1])), False)      # p<0  =>  not(-p<0)
+    _unit_propagate(facts)
+
+
+def _unit_propagate(facts: Dict[Term, bool]):
+    """not (a and b and c) with a, b known true leaves c false;  (a or b or c) with a, b known false leaves c true."""
+    for f, tv in list(facts.items()):
+        if not ((f[0] == "and" and tv is False) or (f[0] == "or" and tv is True)):
+            continue
+        need = f[0] == "and"           # the value every other operand must have for the last one to be forced
+        open_ = []
+        settled = False
+        for x in f[1]:
+            v = specialize(x, {k: w for k, w in facts.items() if k != f}, boolpos=True)
+            if v[0] == "c" and isinstance(v[1], bool):
+                if v[1] is not need:
+                    settled = True
+                    break
+            else:
+                open_.append(x)
+        if not settled and len(open_) == 1:
+            px, pol = positive(as_bool(open_[0]))
+            want = (not need) if pol else need
+            if px not in facts:
+                add_fact(facts, px, want)
 
 
 def specialize(t: Term, facts: Dict[Term, bool], boolpos: bool = False) -> Term:
